@@ -55,6 +55,65 @@ SHAPES = {
     "default_arg_recursion": (lambda d: "local f(n, m=if n == 0 then 0 else 1 + f(n - 1)) = m; f(%d)" % d, lambda d: str(d), True),
 }
 
+# the recursive call in every syntactic position, with and without the tailstrict modifier.  Only a tailstrict call in a
+# genuine tail position (body, if branch, local body, assert rest) may be eliminated; everywhere else each level keeps
+# evaluator state alive and therefore must be charged against the limit.
+#   (name, body with {C} = the call, base value, value of f(d) as a function of d, genuine tail position?)
+CALL_POSITIONS = [
+    ("tail_direct", "{C}", "0", lambda d: "0", True),
+    ("tail_if_else", "if n % 2 == 0 then {C} else {C}", "0", lambda d: "0", True),
+    ("tail_local_body", "local m = n; {C}", "0", lambda d: "0", True),
+    ("tail_assert_rest", "assert n > 0 : 'neg'; {C}", "0", lambda d: "0", True),
+    ("and_rhs", "true && {C}", "true", lambda d: "true", False),
+    ("or_rhs", "false || {C}", "false", lambda d: "false", False),
+    ("or_rhs_cond", "n < 0 || {C}", "true", lambda d: "true", False),
+    ("and_lhs", "{C} && true", "true", lambda d: "true", False),
+    ("or_lhs", "{C} || false", "false", lambda d: "false", False),
+    ("plus_rhs", "1 + {C}", "0", lambda d: str(d), False),
+    ("plus_lhs", "{C} + 1", "0", lambda d: str(d), False),
+    ("unary", "-{C}", "1", lambda d: str(1 if d % 2 == 0 else -1), False),
+    ("not", "!{C}", "true", lambda d: "true" if d % 2 == 0 else "false", False),
+    ("eq_lhs", "{C} == 0", "0", None, False),
+    ("array_index", "[{C}][0]", "0", lambda d: "0", False),
+    ("index_of", "[{C}[0]]", "[0]", lambda d: "[0]", False),
+    ("field_value", "{a: {C}}.a", "0", lambda d: "0", False),
+    ("field_of", "{a: {C}.a}", "{a: 1}", lambda d: '{"a": 1}', False),
+    ("call_argument", "(function(x) x)({C})", "0", lambda d: "0", False),
+    ("call_argument_strict", "(function(x) x)({C}) tailstrict", "0", lambda d: "0", False),
+    ("local_bind", "local v = {C}; v", "0", lambda d: "0", False),
+    ("if_condition", "if {C} then true else true", "true", lambda d: "true", False),
+    ("assert_condition", "assert {C} : 'm'; true", "true", lambda d: "true", False),
+    ("object_extension", "{C} {}", "{}", lambda d: "{ }", False),
+    ("format_operand", "'%s' % {C}", "'x'", lambda d: '"x"', False),
+    ("in_rhs", "{[if 'zz' in {C} then 'y' else 'zz']: 1}", "{}", None, False),
+    ("slice_of", "{C}[0:]", "[]", lambda d: "[ ]", False),
+    ("std_arg", "std.floor({C})", "0", lambda d: "0", False),
+    ("comprehension_source", "[x for x in {C}]", "[]", lambda d: "[ ]", False),
+    ("string_concat", "'' + {C}", "''", lambda d: '""', False),
+    ("error_message_unused", "local e = error 'unused'; {C} + 0", "0", lambda d: "0", False),
+]
+
+
+def _add_call_positions():
+    for name, body, base, valf, tail in CALL_POSITIONS:
+        for strict in (False, True):
+            call = "f(n - 1)" + (" tailstrict" if strict else "")
+
+            def srcf(d, body=body, base=base, call=call):
+                return "local f(n) = if n <= 0 then %s else %s; f(%d)" % (base, body.replace("{C}", call), d)
+            # a level may only be free of charge when the call is tailstrict AND in a genuine tail position
+            SHAPES["pos:%s:%s" % (name, "tailstrict" if strict else "plain")] = (srcf, valf, not (tail and strict))
+    # the same through mutual recursion and through an object method
+    for strict in (False, True):
+        t = " tailstrict" if strict else ""
+        SHAPES["pos:mutual_and_or:%s" % ("tailstrict" if strict else "plain")] = (
+            lambda d, t=t: "local a(n) = n >= 0 && b(n - 1)%s, b(n) = n < 0 || a(n - 1)%s; a(%d)" % (t, t, d), None, True)
+        SHAPES["pos:method_or:%s" % ("tailstrict" if strict else "plain")] = (
+            lambda d, t=t: "local o = {f(n):: n <= 0 || self.f(n - 1)%s}; o.f(%d)" % (t, d), lambda d: "true", True)
+
+
+_add_call_positions()
+
 # self-referential values: (source(k), cycle length)
 CYCLES = {
     "local_cycle": lambda k: "local a0 = a%d" % (k - 1) + "".join(", a%d = a%d" % (i, i - 1) for i in range(1, k)) + "; a0",
@@ -371,7 +430,8 @@ def run(tier, seed):
     rng.shuffle(fj)
     for a in common.pmap(flat_shard, [(seed + i, fj[i::16]) for i in range(16)]):
         total.merge(a)
-    rule = (f"{len(SHAPES)} recursion shapes (function, mutual, object method, self/super chains, array/object towers "
+    rule = (f"{len(SHAPES)} recursion shapes (the recursive call in {len(CALL_POSITIONS)} syntactic positions with and without "
+            "tailstrict - only a tailstrict call in a genuine tail position may go uncharged; function, mutual, object method, self/super chains, array/object towers "
             "through manifestation, ==, <, toString, manifestJsonEx/Python/YamlDoc/TomlEx, prune, mergePatch, "
             "flattenDeepArray, deepJoin, thunk chains, lazy array chains, format, sort keys, comprehensions, asserts, "
             f"default args) x depths x a ladder of {len(S_LADDER)} frame limits (0..10^6): outcome in "
